@@ -17,6 +17,9 @@ func (r *R) U64() uint64 {
 // Split derives an independent stream labelled by k.
 func (r *R) Split(k uint64) *R { return New(r.U64() ^ (k * 0xD6E8FEB86659FD93)) }
 
+// At derives an independent stream labelled by k WITHOUT advancing r (pure: same k, same stream).
+func (r *R) At(k uint64) *R { return New(r.s ^ ((k + 1) * 0xD6E8FEB86659FD93)) }
+
 func (r *R) State() uint64 { return r.s }
 
 func (r *R) Intn(n int) int {
